@@ -62,6 +62,19 @@ FIXED = [
      {"op": "w.add", "t": 0, "p": [0], "ref": [0, 2], "a": 6, "via": "prepend_sibling"},
      {"op": "w.add", "t": 0, "p": [0], "a": 7, "via": "prepend_child", "kind": "a"},
      {"op": "w.add", "t": 0, "p": [0], "ref": [0, 1], "a": 1, "via": "append_sibling"}],
+    # metadata: removing the last key empties the dict (meta is None again), update on existing / absent metadata, replace=True,
+    # set_meta(key, None) removes, falsy values stay, one caller-owned dict used twice
+    [{"op": "w.add", "t": 0, "p": [], "a": 0}, {"op": "w.add", "t": 0, "p": [0], "a": 1},
+     {"op": "w.meta", "t": 0, "n": [0], "kind": "set", "k": "a", "v": "1"}, {"op": "w.meta", "t": 0, "n": [0], "kind": "clear", "k": "zz"},
+     {"op": "w.meta", "t": 0, "n": [0], "kind": "clear", "k": "a"}, {"op": "w.meta", "t": 0, "n": [0], "kind": "clear", "k": "a"},
+     {"op": "w.meta", "t": 0, "n": [0, 0], "kind": "update", "vals": [["a", "1"], ["c", "0"]], "replace": False},
+     {"op": "w.meta", "t": 0, "n": [0, 0], "kind": "update", "vals": [["c", "2"], ["d", "null"]], "replace": False},
+     {"op": "w.meta", "t": 0, "n": [0, 0], "kind": "set", "k": "a", "v": "null"},
+     {"op": "w.meta", "t": 0, "n": [0, 0], "kind": "set", "k": "b", "v": "false"},
+     {"op": "w.meta", "t": 0, "n": [0, 0], "kind": "update", "vals": [["d", "5"]], "replace": True, "shared": 0},
+     {"op": "w.meta", "t": 0, "n": [0], "kind": "update", "vals": [["a", "7"]], "replace": False, "shared": 0},
+     {"op": "w.meta", "t": 0, "n": [0, 0], "kind": "update", "vals": [], "replace": True},
+     {"op": "w.meta", "t": 0, "n": [0], "kind": "set", "k": "a", "v": "null"}, {"op": "w.meta", "t": 0, "n": [0], "kind": "clear", "k": None}],
     # a node with children and a clone elsewhere: only the designated node goes, with its branch
     [{"op": "w.add", "t": 0, "p": [], "a": 0}, {"op": "w.add", "t": 0, "p": [0], "a": 1}, {"op": "w.add", "t": 0, "p": [0, 0], "a": 2},
      {"op": "w.add", "t": 0, "p": [], "a": 2}, {"op": "w.del", "t": 0, "a": 1}, {"op": "w.del", "t": 0, "a": 2}, {"op": "w.del", "t": 0, "a": 2}],
